@@ -48,7 +48,8 @@ type Frame struct {
 	prefix       string
 	contract     *FuncContract
 	parent       *Frame
-	firedAnchors map[int]bool // indices of contract.Asserts whose anchor was reached
+	pendingFree  map[string]Binding // captured variables of the function literal whose contract is being applied
+	firedAnchors map[int]bool       // indices of contract.Asserts whose anchor was reached
 	pkg          string
 	entrySt      *State
 	loops        map[*ssa.BasicBlock]*loopInfo
